@@ -288,3 +288,6 @@ for _p in PROPS:
     PROPS[_p].setdefault("trusted_base", [])
 for _p in ("C01", "C02", "C04", "C05", "C11", "C12", "C13", "C15"):
     PROPS[_p]["trusted_base"] = PROPS[_p]["trusted_base"] + ["EdsModel/Cluster.lean (L3): the API server's effect of each write (apply functions) is modelled by hand and validated by the transition check of every scenario run (predicted world = world the next reconcile read)"]
+
+# the trigger of selectNodes and the stale-read cases live in eds_reconcile
+PROPS["C15"]["streams"] = PROPS["C15"]["streams"] + [("eds_reconcile", 1500, 30000)]
